@@ -229,3 +229,144 @@ Proof.
   intros [_ (_ & _ & _ & H01 & _ & H34)] x y.
   pose proof (CostTableProof.cost_spec_mirror s D x y H01 H34) as H. exact H.
 Qed.
+
+(** * the ParFront merge loop always ends in a partition whose consecutive groups are robustly linked *)
+Lemma nth_merge_at_lt P index i : (i < index)%nat -> nth i (merge_at P index) [] = nth i P [].
+Proof.
+  revert index i; induction P as [|g P IH]; intros index i H; [destruct index; reflexivity|].
+  destruct index as [|index]; [lia|]. cbn [merge_at]. destruct i as [|i]; [reflexivity|].
+  simpl. apply IH. lia.
+Qed.
+
+Lemma length_merge_at P index : (index + 1 < length P)%nat -> length (merge_at P index) = (length P - 1)%nat.
+Proof.
+  revert index; induction P as [|g P IH]; intros index H; [simpl in H; lia|].
+  destruct index as [|index].
+  - destruct P as [|g2 P]; [simpl in H; lia|]. simpl. lia.
+  - cbn [merge_at]. simpl length. rewrite IH by (simpl in H; lia). simpl in H. lia.
+Qed.
+
+Lemma concat_merge_at P index : concat (merge_at P index) = concat P.
+Proof.
+  revert index; induction P as [|g P IH]; intros index; [destruct index; reflexivity|].
+  destruct index as [|index].
+  - destruct P as [|g2 P]; [reflexivity|]. simpl. rewrite app_assoc. reflexivity.
+  - cbn [merge_at]. simpl. rewrite IH. reflexivity.
+Qed.
+
+Definition robust_left_of (K : table) (P : ranking) (index : nat) : Prop :=
+  forall i, (i < index)%nat -> (i + 1 < length P)%nat -> fully_robust K (nth i P []) (nth (S i) P []) = true.
+
+Theorem merge_loop_spec K : forall fuel P index,
+  (2 * length P - index < fuel)%nat -> (index <= length P)%nat -> robust_left_of K P index ->
+  exists Q, merge_loop fuel K P index = Some Q /\ all_consecutive_robust K Q = true /\ concat Q = concat P.
+Proof.
+  induction fuel as [|f IH]; intros P index Hf Hi Inv; [lia|]. cbn [merge_loop].
+  destruct (Nat.ltb index (length P - 1)) eqn:E.
+  - apply Nat.ltb_lt in E. destruct (fully_robust K (nth index P []) (nth (S index) P [])) eqn:R.
+    + apply IH; [lia|lia|]. intros i Hi' Hl. destruct (Nat.eq_dec i index) as [->|Ne]; [exact R|].
+      apply Inv; lia.
+    + destruct (IH (merge_at P index) (Nat.max (index - 1) 0)) as (Q & E1 & E2 & E3).
+      * rewrite length_merge_at by lia. lia.
+      * rewrite length_merge_at by lia. lia.
+      * intros i Hi' Hl. rewrite length_merge_at in Hl by lia.
+        rewrite !nth_merge_at_lt by lia. apply Inv; lia.
+      * exists Q. split; [exact E1|]. split; [exact E2|]. rewrite E3. apply concat_merge_at.
+  - apply Nat.ltb_ge in E. exists P. split; [reflexivity|]. split; [|reflexivity].
+    unfold all_consecutive_robust. rewrite forallb_forall. intros i Hin. apply in_seq in Hin.
+    apply Inv; lia.
+Qed.
+
+(** the ParFront partition: always produced, same elements in the same order (consecutive groups of the
+    input partition are concatenated), all consecutive groups robustly linked *)
+Theorem parfront_from_spec K P0 :
+  exists P, parfront_from K P0 = Some P /\ all_consecutive_robust K P = true /\ concat P = concat P0.
+Proof.
+  unfold parfront_from. apply merge_loop_spec; [lia|lia|]. intros i Hi. lia.
+Qed.
+
+(** merging consecutive groups is monotone on group indices, hence keeps "no back arcs" *)
+Lemma bid_from_shift Q k x : 0 <= k ->
+  bid_from (k + 1) Q x = if bid_from k Q x =? -1 then -1 else bid_from k Q x + 1.
+Proof.
+  revert k; induction Q as [|b Q IH]; intros k Hk; [reflexivity|]. cbn [bid_from].
+  destruct (mem x b); [replace (k =? -1) with false by lia; reflexivity|].
+  rewrite (IH (k + 1)) by lia. reflexivity.
+Qed.
+
+Lemma bid_merge_at P : forall i k x, 0 <= k -> (i + 1 < length P)%nat ->
+  bid_from k (merge_at P i) x =
+  if bid_from k P x <=? k + Z.of_nat i then bid_from k P x else bid_from k P x - 1.
+Proof.
+  induction P as [|g P IH]; intros i k x Hk Hl; [simpl in Hl; lia|].
+  destruct i as [|i].
+  - destruct P as [|g2 P]; [simpl in Hl; lia|]. cbn [merge_at bid_from].
+    unfold mem at 1. rewrite existsb_app. fold (mem x g). fold (mem x g2).
+    destruct (mem x g); cbn [orb].
+    + destruct (k <=? k + Z.of_nat 0) eqn:E; lia.
+    + destruct (mem x g2).
+      * destruct (k + 1 <=? k + Z.of_nat 0) eqn:E; lia.
+      * rewrite (bid_from_shift P (k + 1) x) by lia.
+        destruct (bid_from_range (k + 1) P x ltac:(lia)) as [E|E].
+        -- rewrite E. cbn [Z.eqb]. destruct (-1 <=? k + Z.of_nat 0) eqn:E'; lia.
+        -- destruct (bid_from (k + 1) P x =? -1) eqn:E1; [lia|].
+           destruct (bid_from (k + 1) P x + 1 <=? k + Z.of_nat 0) eqn:E2; lia.
+  - cbn [merge_at bid_from]. destruct (mem x g).
+    + destruct (k <=? k + Z.of_nat (S i)) eqn:E; lia.
+    + rewrite IH by (simpl in Hl; lia).
+      replace (k + 1 + Z.of_nat i) with (k + Z.of_nat (S i)) by lia. reflexivity.
+Qed.
+
+Definition coarser (P Q : ranking) : Prop :=
+  forall x y, bucket_id Q x < bucket_id Q y -> bucket_id P x < bucket_id P y.
+
+Lemma coarser_merge_at P i : (i + 1 < length P)%nat -> coarser P (merge_at P i).
+Proof.
+  intros Hl x y. unfold bucket_id. rewrite !bid_merge_at by (try lia; assumption).
+  destruct (bid_from 0 P x <=? 0 + Z.of_nat i) eqn:E1; destruct (bid_from 0 P y <=? 0 + Z.of_nat i) eqn:E2; lia.
+Qed.
+
+Lemma Forall_nonempty_merge_at P i : Forall (fun g : list nat => g <> []) P -> Forall (fun g => g <> []) (merge_at P i).
+Proof.
+  revert i; induction P as [|g P IH]; intros i H; [destruct i; assumption|].
+  destruct i as [|i].
+  - destruct P as [|g2 P]; [assumption|]. cbn [merge_at]. inversion H as [|? ? Hg H']; subst. inversion H'; subst.
+    constructor; [|assumption]. destruct g; [contradiction|discriminate].
+  - cbn [merge_at]. inversion H; subst. constructor; [assumption|apply IH; assumption].
+Qed.
+
+Theorem merge_loop_coarser K : forall fuel P index Q,
+  merge_loop fuel K P index = Some Q -> coarser P Q /\ (Forall (fun g => g <> []) P -> Forall (fun g => g <> []) Q).
+Proof.
+  induction fuel as [|f IH]; intros P index Q H; [discriminate|]. cbn [merge_loop] in H.
+  destruct (Nat.ltb index (length P - 1)) eqn:E.
+  - apply Nat.ltb_lt in E. destruct (fully_robust K (nth index P []) (nth (S index) P [])).
+    + apply (IH _ _ _ H).
+    + destruct (IH _ _ _ H) as [C N]. split.
+      * intros x y L. apply (coarser_merge_at P index ltac:(lia)). apply C. exact L.
+      * intros HP. apply N. apply Forall_nonempty_merge_at. exact HP.
+  - inversion H; subst. split; [intros x y L; exact L|auto].
+Qed.
+
+(** C07, end to end on the model: starting from ANY partition of the universe without back arcs (what the
+    SCC routine is required to return), the ParFront partition is produced, has the same elements in the
+    same order, and every optimal consensus ranks each of its groups strictly before the later ones *)
+Theorem parfront_every_optimum K U P0 :
+  mirror K -> NoDup U -> is_partition_of U P0 = true -> no_back_arcs K P0 = true ->
+  exists P, parfront_from K P0 = Some P /\ concat P = concat P0 /\ Forall (fun g => g <> []) P /\
+    forall c, is_optimal K U c ->
+      forall x y, In x U -> In y U -> bucket_id P x < bucket_id P y -> bucket_id c x < bucket_id c y.
+Proof.
+  intros M Nd HP HB. destruct (is_partition_of_spec U P0 Nd HP) as [W0 Ne0].
+  destruct (parfront_from_spec K P0) as (P & E & R & C).
+  destruct (merge_loop_coarser K _ _ _ _ E) as [Co Ne].
+  exists P. split; [exact E|]. split; [exact C|]. split; [apply Ne; exact Ne0|].
+  assert (WP : wfU U P) by (unfold wfU, elems; rewrite C; exact W0).
+  assert (Inc : forall x, In x U -> In x (elems P)) by (intros x Hx; eapply Permutation_in; [symmetry; exact WP|exact Hx]).
+  intros c Hc. apply (every_optimum_respects K U P c); try assumption.
+  - apply Ne; exact Ne0.
+  - intros x y Hx Hy L. apply Co in L.
+    assert (NB0 : no_back K (elems P0) (bucket_id P0)) by (apply no_back_arcs_spec; assumption).
+    apply NB0; try assumption; eapply Permutation_in; try (symmetry; exact W0); assumption.
+  - intros x y Hx Hy Eq. apply (all_consecutive_robust_spec K P R x y (Inc x Hx) (Inc y Hy) Eq).
+Qed.
